@@ -648,20 +648,27 @@ where
         // TODO: does not handle unrealistically large buffers
         let offset = to.byte as i64 - self.position.byte as i64;
         let pos = self.buf_pos.start as i64 + offset;
-        self.position = to.clone();
-        self.state = State::Positioned;
 
         if pos >= 0 && pos < (self.get_buf().len() as i64) {
             // position reachable within buffer -> no actual seeking necessary
+            self.position = to.clone();
+            self.state = State::Positioned;
             self.search_pos = pos as usize;
             self.buf_pos.reset(pos as usize);
             return Ok(());
         }
 
+        // if this fails, the reader is left unchanged
         self.buf_reader.seek(io::SeekFrom::Start(to.byte))?;
-        fill_buf(&mut self.buf_reader)?;
+        // The buffer is empty now. Point to its start before refilling, so the
+        // reader remains consistent if refilling fails. In this case, the state
+        // remains `Incomplete`, and the next read resumes the refill.
+        self.position = to.clone();
         self.search_pos = 0;
         self.buf_pos.reset(0);
+        self.state = State::Incomplete;
+        fill_buf(&mut self.buf_reader)?;
+        self.state = State::Positioned;
         Ok(())
     }
 }
